@@ -20,6 +20,7 @@ type Cell struct {
 	epoch uint32 // 0: created during package initialisation; else path serial
 	up    *Cell  // enclosing array cell (array elements only)
 	upIdx int32
+	seq   uint32 // creation order within the path (for the shared-state monitor)
 }
 
 // Ptr designates a cell. With idx != nil it designates c.kids[idx] where
